@@ -104,6 +104,7 @@ fn gen_generate_valid_inner_value_with_validators<T: ToTokens>(
     }
 
     let basic_value_kind = compute_basic_value_kind(&validator_kinds);
+    let must_be_finite = matches!(basic_value_kind, BasicValueKind::Finite);
     let basic_value = generate_basic_value(inner_type, basic_value_kind);
     let boundaries = compute_boundaries(validators);
 
@@ -111,6 +112,7 @@ fn gen_generate_valid_inner_value_with_validators<T: ToTokens>(
         inner_type,
         basic_value,
         boundaries,
+        must_be_finite,
     ))
 }
 
@@ -118,7 +120,18 @@ fn normalize_basic_value_for_boundaries(
     inner_type: &FloatInnerType,
     basic_value: TokenStream,
     boundaries: Boundaries,
+    must_be_finite: bool,
 ) -> TokenStream {
+    // Adding a boundary to a finite basic value can overflow to infinity
+    // (e.g. `f64::MAX + 1e300`), which `finite` does not allow.
+    let (keep_finite_upwards, keep_finite_downwards) = if must_be_finite {
+        (
+            quote!(let x = x.min(#inner_type::MAX);),
+            quote!(let x = x.max(#inner_type::MIN);),
+        )
+    } else {
+        (quote!(), quote!())
+    };
     match (boundaries.lower, boundaries.upper) {
         (Some(lower), Some(upper)) => {
             // In this case we don't use `basic_value` we generate a new value that lays in between
@@ -154,6 +167,7 @@ fn normalize_basic_value_for_boundaries(
                 let basic_value = #basic_value;
                 let positive_basic_value = basic_value.abs();
                 let x = positive_basic_value + #lower_value;
+                #keep_finite_upwards
                 #adjust_x
             }
         }
@@ -165,6 +179,7 @@ fn normalize_basic_value_for_boundaries(
                 let basic_value = #basic_value;
                 let negative_basic_value = -basic_value.abs();
                 let x = negative_basic_value + #upper_value;
+                #keep_finite_downwards
                 #adjust_x
             }
         }
